@@ -18,10 +18,10 @@ CHECKS = {
                 "Service through a controlled listener and on real unix/abstract/tcp sockets, each followed by a full second "
                 "bind-serve-call-shutdown cycle.",
         "note": "Partial: fairness and the behaviour of package net are assumptions (listed in lean/Varlink/Lifecycle.lean, re-validated on "
-                "real sockets each run); return time is checked with one-sided margins (3 s watchdog); theorems about return value, "
-                "endpoint release and reusability assume the orderly discipline (no API call started while a serving call's start-up or "
-                "drain is in flight, except binds refused because running = true) — a Bind concurrent with the start of a serving call used to slip between the running check and running = true "
-                "(Shutdown then did not end serving): repaired in /repo by a1069ea, `vh lifeprobe` (real scheduler, every run) checks that it stays repaired). Trusted: Lean kernel, harness (controlled listener, quiescence test), "
+                "real sockets each run); return time is checked with one-sided margins (3 s watchdog); the model has the code\'s granularity (the start-up critical sections of Bind / Listen / DoListen are single steps since fix a1069ea); "
+                "`shutdown_returns_any`, `serving_call_listener`, `bind_window_gone`, `second_bind_refused_any`, `drains`, `accounted_once`, `no_service_after_shutdown` hold for EVERY reachable state with no discipline on API use; "
+                "only the nil return value after a Shutdown (`Serial`: no second serving call started before the first has returned) and `reusable` (`Orderly`: additionally no stand-alone Bind between a serving call\'s teardown and its return) "
+                "carry a discipline hypothesis, each shown necessary by a decide\'d model trace; `vh lifeprobe` (real scheduler, every run) checks that a Bind racing with the start of serving is refused or comes first. Trusted: Lean kernel, harness (controlled listener, quiescence test), "
                 "driver replay of harness events, skeleton extractor.",
         "technique": "Lean 4 LTS + invariants by induction over reachability + bounded-progress measure + regenerated skeleton (decide) + exhaustive bounded-history correspondence on the real code",
     },
